@@ -34,6 +34,8 @@ def run_property(pid, tier="quick", seed=0, root=None, quiet=False, ctx=None):
         mod.check(ctx, R)
         if tier == "thorough" and hasattr(mod, "check_thorough"):
             mod.check_thorough(ctx, R)
+        from .freshrule import fresh_rule
+        R.attempt(fresh_rule, ctx, R)
         if R.count_failures:
             # a lost anchor / uninterpretable construct: only a NEW violation (not a recorded known finding) outranks it
             from .report import load_known_findings
